@@ -528,7 +528,7 @@ class ErrorRateParity(UtilityParity):
             sensitive_features=sensitive_features,
             control_features=control_features,
         )
-        utilities = np.vstack([y_train, 1 - y_train]).T
+        utilities = np.vstack([y_train, 1 - y_train]).T.astype(np.float64)
         base_event = pd.Series(data=_ALL, index=y_train.index)
         event = _merge_event_and_control_columns(base_event, cf_train)
         super().load_data(
